@@ -737,9 +737,125 @@ func (c *chessCtx) checkC04(o *Obs, fen string, pFen, pPath *position.Position) 
 			c.keyToIdent[k] = keyRef{k, ident, fen, o.Root, o.Path}
 		}
 	}
+	// (d) relatives that differ from the position in exactly ONE component - the en-passant square cleared, one castling right
+	// given up, the other side to move, one piece taken off the board - are different positions: each must have a different
+	// key (a component whose random number is zero, or shared with another one, shows here and nowhere else: incremental and
+	// fresh keys agree, and the game tree hardly ever contains both members of such a pair). Variants that are not
+	// well-formed positions any more (the engine refuses them) are skipped.
+	k0 := uint64(pFen.ZobristKey())
+	seen := map[uint64]string{k0: fen}
+	for _, v := range fenRelatives(fen, len(o.Path) == 0 || c.res.Counters["C04.nodes"]%16 == 0) {
+		var q *position.Position
+		if e := guard(func() { q, _ = position.NewPositionFen(v) }); e != "" || q == nil {
+			continue
+		}
+		c.res.count("C04.relatives", 1)
+		kv := uint64(q.ZobristKey())
+		if other, ok := seen[kv]; ok {
+			f := strings.Fields(v)
+			g := strings.Fields(other)
+			what := "piece"
+			switch {
+			case f[3] != g[3]:
+				what = "en-passant-file-" + string(strings.Trim(f[3]+g[3], "-")[0])
+			case f[2] != g[2]:
+				what = "castling"
+			case f[1] != g[1]:
+				what = "side-to-move"
+			}
+			c.disc("C04", "different-positions-same-key/relative", "key-collision/"+what, o, fen, map[string]interface{}{"key": kv, "relative": v, "other_fen": other})
+		} else {
+			seen[kv] = v
+		}
+	}
 	if len(c.res.Samples["C04"]) < 3 && len(o.Path) > 1 {
 		c.res.sample("C04", map[string]interface{}{"root": o.Root, "path": uciList(o.Path), "fen": fen, "key": uint64(pPath.ZobristKey())})
 	}
+}
+
+// fenRelatives: FENs that differ from the given one in exactly one component (see checkC04 (d))
+func fenRelatives(fen string, pieces bool) []string {
+	f := strings.Fields(fen)
+	if len(f) != 6 {
+		return nil
+	}
+	join := func(g []string) string { return strings.Join(g, " ") }
+	var out []string
+	if f[3] != "-" {
+		g := append([]string{}, f...)
+		g[3] = "-"
+		out = append(out, join(g))
+	}
+	if f[2] != "-" {
+		for i := range f[2] {
+			g := append([]string{}, f...)
+			g[2] = f[2][:i] + f[2][i+1:]
+			if g[2] == "" {
+				g[2] = "-"
+			}
+			out = append(out, join(g))
+		}
+	}
+	{
+		g := append([]string{}, f...)
+		g[3] = "-"
+		if f[1] == "w" {
+			g[1] = "b"
+		} else {
+			g[1] = "w"
+		}
+		out = append(out, join(g))
+	}
+	if pieces {
+		// the placement as 64 characters, '1' = empty
+		var cells []byte
+		for _, ch := range []byte(f[0]) {
+			switch {
+			case ch >= '1' && ch <= '8':
+				for n := byte('0'); n < ch; n++ {
+					cells = append(cells, '1')
+				}
+			case ch != '/':
+				cells = append(cells, ch)
+			}
+		}
+		if len(cells) == 64 {
+			for i, ch := range cells {
+				if ch == '1' || ch == 'k' || ch == 'K' {
+					continue
+				}
+				var sb strings.Builder
+				run := 0
+				for j, cj := range cells {
+					if j == i {
+						cj = '1'
+					}
+					if cj == '1' {
+						run++
+					} else {
+						if run > 0 {
+							sb.WriteByte(byte('0' + run))
+							run = 0
+						}
+						sb.WriteByte(cj)
+					}
+					if j%8 == 7 {
+						if run > 0 {
+							sb.WriteByte(byte('0' + run))
+							run = 0
+						}
+						if j != 63 {
+							sb.WriteByte('/')
+						}
+					}
+				}
+				g := append([]string{}, f...)
+				g[0], g[3] = sb.String(), "-"
+				out = append(out, join(g))
+			}
+		}
+	}
+	return out
 }
 
 // ------------------------------------------------------------------------------------- C08
